@@ -54,14 +54,20 @@ KIND = ["obj"]                                             # element kind of the
 
 
 class L1(Exception):
+    __bool__ = lambda self: False       # unusual but legal: a falsy exception object
+
     pass
 
 
 class L2(Exception):
+    __bool__ = lambda self: False       # unusual but legal: a falsy exception object
+
     pass
 
 
 class Unlisted(Exception):
+    __bool__ = lambda self: False       # unusual but legal: a falsy exception object
+
     pass
 
 
